@@ -308,12 +308,18 @@ class Simulation:
                 self._current_time,
                 self._event_heap.size(),
             )
+            self._event_heap.continue_counter_after_global()
 
         # Set active contexts so SimFuture.resolve()/fail() can schedule events
         # and so ProcessContinuation can access the code debugger.
-        with _active_sim_context(self._event_heap, self._clock):
-            with _active_debugger_context(getattr(self, "_code_debugger", None)):
-                return self._run_loop()
+        try:
+            with _active_sim_context(self._event_heap, self._clock):
+                with _active_debugger_context(getattr(self, "_code_debugger", None)):
+                    return self._run_loop()
+        finally:
+            # Events built while the run is paused (or after it) are younger
+            # than everything created during it.
+            self._event_heap.publish_counter_to_global()
 
     def _run_loop(self) -> SimulationSummary:
         """Inner loop extracted for clean active-context scoping."""
